@@ -21,6 +21,7 @@ mod c12;
 mod c13;
 mod c16;
 mod c17;
+mod c19;
 mod pat;
 
 use engine::*;
@@ -53,6 +54,7 @@ fn props() -> Vec<Prop> {
         Prop { id: "C13", run: c13::run, replay: c13::replay, meta: c13::meta, workers: (1, 16), also_release: false },
         Prop { id: "C16", run: c16::run, replay: c16::replay, meta: c16::meta, workers: (8, 16), also_release: false },
         Prop { id: "C17", run: c17::run, replay: c17::replay, meta: c17::meta, workers: (4, 16), also_release: false },
+        Prop { id: "C19", run: c19::run, replay: c19::replay, meta: c19::meta, workers: (4, 16), also_release: false },
         Prop { id: "C10", run: c10::run, replay: c10::replay, meta: c10::meta, workers: (1, 16), also_release: false },
     ]
 }
